@@ -9,7 +9,7 @@ from mc.gates import G, W, mk_gate, num
 from mc.ref import linalg as L
 from mc import cutoff
 
-RULE = ("bases: 21 built-in/custom gates; modifiers: dagger, controlled(1|2), power(2|3|-1|0|1/2|1/3), exp; chains applied through the public methods: "
+RULE = ("bases: 23 built-in/custom gates; modifiers: dagger, controlled(1|2), power(2|3|-1|0|1/2|1/3), exp; chains applied through the public methods: "
         "all chains of depth <= D with at most one transcendental modifier (fractional power / exp) + listed transcendental-on-transcendental chains. "
         "Step-wise oracle: the matrix of m(g) is compared with the definition applied to the implementation's own numeric matrix of g "
         "(dagger: conjugate transpose; controlled(k): identity block then g; integer power: repeated product/inverse; power(1/q): ANY R with R^q = g; "
@@ -22,7 +22,7 @@ BOUNDS = {"quick": {"depth": 2, "transcendental_per_chain": 1, "matrix_qubits": 
 ATOL = 1e-8
 
 BASES = [G("X"), G("Y"), G("Z"), G("H"), G("T"), G("S"), G("SX"), G("RX", 0.3), G("RZ", -1.1), G("PHASE", 2.5), G("U3", 0.3, -1.1, 2.5), G("GPi", 0.3), G("CNOT"), G("CZ"), G("SWAP"),
-         G("ISWAP"), G("CPHASE", 0.3), G("XX", 0.3), G("custom1"), G("custom2p", 0.3, 0.7), G("custom3")]
+         G("ISWAP"), G("CPHASE", 0.3), G("XX", 0.3), G("custom1"), G("custom2p", 0.3, 0.7), G("custom3"), G("customsym1"), G("customsym2")]
 ALG = [["dagger"], ["controlled", 1], ["controlled", 2], ["power", 2], ["power", 3], ["power", -1], ["power", 0]]
 TRANS = [["power", "1/2"], ["power", "1/3"], ["exp"]]
 NEWP = {1: (0.9,), 2: (0.9, -0.4), 3: (0.9, -0.4, 1.7)}
